@@ -74,4 +74,14 @@ META.update({
     'C20': _m('runtime monitoring: declaration algebra laws vs list algebra over DFS reachability',
               '3.20', 'Held on the recorded executions: all ordered pairs of generated declarations per world.',
               'A+B: placement of a new element that extends only an earlier new element is not constrained.'),
+    'C14': _m('runtime monitoring: trace-specification monitor - recorded call log and outcome of I(obj[, alt]) vs a 12-line reference, complete case product',
+              '3.14', 'Held on the enumerated product (27k-170k cases per implementation): precedence automaton over the recorded call log, result/exception identity.',
+              'Trusted: the reference function of the adaptation order.'),
+    'C16': _m('runtime monitoring: Components histories vs listing ledger, event recorder on registry.notify, fresh-registry differential after every call',
+              '3.16', 'Held on the recorded executions.', 'Events: documented per-call semantics and strict per-registration reading both accepted where they differ.'),
+    'C17': _m('runtime monitoring: exhaustive signature-pair grid, admitted call shapes bound with inspect.signature(impl).bind; multi-error cases',
+              '3.17', 'Held on the complete 48x48 signature grid in three implementation forms plus random multi-error cases.',
+              'Trusted: inspect.signature; kw-only/positional-only parameters belong to C18.'),
+    'C18': _m('runtime monitoring: exhaustive grid of generated def statements through six description routes vs inspect.signature',
+              '3.18', 'Held on the complete 756-function grid x 6 routes and the shipped ABC interfaces.', 'Trusted: inspect.signature.'),
 })
